@@ -36,6 +36,7 @@ package finalizers
 //@   ensures ret0 == nil ==> jwks.n > old(jwks.n) && s.jwk == jwks.ret0[jwks.n - 1] && s.key == jwks.arg0[jwks.n - 1].PrivateKey
 //@   ensures ret0 == nil ==> jwks.n - 1 - old(jwks.n) == len(s.pubKeys) && (forall j int :: 0 <= j && j < len(s.pubKeys) ==> s.pubKeys[j] == jwks.ret0[old(jwks.n) + j])
 //@   ensures ret0 == nil && len(s.keyID) == 0 ==> len(s.pubKeys) > 0 && jwks.arg0[jwks.n - 1] == jwks.arg0[old(jwks.n)]
+//@   ensures ret0 == nil && len(s.keyID) != 0 ==> s.jwk.KeyID == s.keyID
 
 // the published keys are what the last successful load stored
 //@ func (*jwtSigner).Keys
